@@ -16,10 +16,7 @@ static mut E_AUX: [bool; 4] = [false; 4];
 
 /// stands in for `AclEntry::allow`: answers from a symbolic table, records which entry (by the
 /// fabric index stored in it) was consulted
-fn entry_oracle<'a>(e: &AclEntry, _req: &AccessReq<'a>, aux: bool) -> bool
-where
-    'a: 'a,
-{
+fn entry_oracle(e: &AclEntry, _req: &AccessReq, aux: bool) -> bool {
     unsafe {
         let k = (E_CALLS % 4) as usize;
         E_CALLS += 1;
